@@ -346,6 +346,11 @@ func crashWorker() {
 		r := s.Barrier(300 * time.Millisecond)
 		ret := s.Finish(5 * time.Second)
 		w := witness.Barrier(barrierWait)
+		if !w.Pong && !w.Closed {
+			// no verdict from a short wall-clock wait: a witness that is only slow (a loaded machine)
+			// answers a second ping within a minute, one that is really blocked never does
+			w = witness.Barrier(60 * time.Second)
+		}
 		fmt.Fprintf(out, "DONE %d pong=%t closed=%t stuck=%t runReturned=%t witnessPong=%t panic=%q\n", c.ID, r.Pong, r.Closed, r.Stuck, ret, w.Pong, s.RunPanic)
 		out.Flush()
 	}
@@ -491,6 +496,7 @@ func runC15(tier string) int {
 	var vs []mc.Violation
 	outcomes := map[string]int{}
 	nontrivial := 0
+	witnessConfirmed := 0
 	recheck := func(c crashCase) *caseResult {
 		res := map[int]*caseResult{}
 		runWorker([]crashCase{c}, res)
@@ -523,6 +529,18 @@ func runC15(tier string) int {
 			vs = append(vs, mc.Violation{Prop: "C15", Clause: "run-did-not-return", Fingerprint: "run-did-not-return|" + nameClass(c.Name),
 				Detail: fmt.Sprintf("stage %s, %s: Run had not returned 5 s after the peer closed the connection", c.Stage, c.Name), History: hist})
 		case !r.witness:
+			// confirm: the same single case, alone in a fresh worker with a fresh witness, must silence
+			// the witness again (a witness that ended through the node's own wall-clock timers on a
+			// loaded machine stays silent for every later case of its worker)
+			if witnessConfirmed >= 10 {
+				outcomes["witness-affected-not-rechecked"]++
+				continue
+			}
+			if r2 := recheck(c); r2 == nil || r2.witness || r2.died != "" {
+				outcomes["witness-late-not-reproduced"]++
+				continue
+			}
+			witnessConfirmed++
 			outcomes["witness-affected"]++
 			vs = append(vs, mc.Violation{Prop: "C15", Clause: "other-connection-affected", Fingerprint: "other-connection-affected|" + nameClass(c.Name),
 				Detail: fmt.Sprintf("stage %s, %s: a healthy node sharing the repositories no longer answers ping", c.Stage, c.Name), History: hist})
